@@ -318,7 +318,7 @@ class StateTriggerDecorator(TriggerDecorator, ExpressionDecorator, AutoKwargsDec
                 "trigger %s: @state_trigger is not watching any variables; will never trigger",
                 self.dm.name,
             )
-            return
+            # no change will ever arrive, but the check of state_check_now still applies
         _LOGGER.debug("trigger %s: starting", self.name)
 
         self.cycle_task = self.dm.hass.async_create_background_task(self._cycle(), repr(self))
